@@ -156,6 +156,17 @@ Theorem C05_src_collect_subtree : forall n h t,
   src_collect_subtree (S n) h t = match pref n h t with Some l => Ok (t :: l) | None => Crash RecursionError end.
 Proof. exact src_collect_subtree_eq. Qed.
 
+(* ---- second tranche: the id check itself.  _has_id_intersection(parent, children), translated from its current
+   source text, answers exactly what the model's [id_clash] answers in every well-formed state, for every receiving
+   task and every list of incoming tasks inside the heap (an object outside the heap reads as a pristine task in the
+   code and is not enumerated by the model: Graph/SrcGraphEquiv2.v has the counterexamples). *)
+From PJ Require Import Graph.SrcGraphEquiv2.
+
+Theorem C05_src_has_id_intersection : forall s p chs, WF s ->
+  p < length (hp s) -> (forall c, In c chs -> c < length (hp s)) ->
+  src_has_id_intersection (S (length (hp s))) (hp s) p chs = id_clash (hp s) p chs.
+Proof. exact src_has_id_intersection_eq. Qed.
+
 Print Assumptions C05_unique.
 Print Assumptions C05_unique_below.
 Print Assumptions C05_unique_wbs.
@@ -178,3 +189,4 @@ Print Assumptions C05_src_find_root.
 Print Assumptions C05_src_get_children.
 Print Assumptions C05_src_all_children.
 Print Assumptions C05_src_collect_subtree.
+Print Assumptions C05_src_has_id_intersection.
